@@ -56,7 +56,16 @@ func (s shape) key(id uint32, mat int) ref.SelKey {
 
 func shapeOf(k ref.SelKey) shape { return shape{k.Type, k.Variant, k.KidMode, k.CustomKid} }
 
-type acceptFn func(out []byte) (accepted bool, anomaly string)
+// acceptFn / produceFn take the message (nil = the fixed default message of the class).
+type acceptFn func(out, m []byte) (accepted bool, anomaly string)
+type produceFn func(m []byte) ([]byte, error)
+
+func orMsg(m []byte) []byte {
+	if m == nil {
+		return msg
+	}
+	return m
+}
 
 type class struct {
 	name      string
@@ -69,12 +78,12 @@ type class struct {
 	monitored bool
 	isPRF     bool
 	mk        func(ref.SelKey) keyPair
-	producer  func(h *keyset.Handle) (func() ([]byte, error), error)
+	producer  func(h *keyset.Handle) (produceFn, error)
 	acceptor  func(h *keyset.Handle) (acceptFn, error)
 	rotQuick  []string // Add alphabet of the quick-tier rotation graph (shape names)
 
-	keys, probes, singles, forced sync.Map
-	sampleCount                   atomic.Int64
+	keys, probes, singles, forced, collisions sync.Map
+	sampleCount                               atomic.Int64
 }
 
 func shapesOf(typ string, vs []ref.Variant) []shape {
@@ -97,8 +106,9 @@ func cat(ss ...[]shape) []shape {
 	return out
 }
 
-func bytesAccept(f func(out []byte) ([]byte, error), want []byte) acceptFn {
-	return func(out []byte) (bool, string) {
+func bytesAccept(f func(out []byte) ([]byte, error)) acceptFn {
+	return func(out, m []byte) (bool, string) {
+		want := orMsg(m)
 		pt, err := f(out)
 		if err != nil {
 			return false, ""
@@ -110,8 +120,8 @@ func bytesAccept(f func(out []byte) ([]byte, error), want []byte) acceptFn {
 	}
 }
 
-func errAccept(f func(out []byte) error) acceptFn {
-	return func(out []byte) (bool, string) { return f(out) == nil, "" }
+func errAccept(f func(out, m []byte) error) acceptFn {
+	return func(out, m []byte) (bool, string) { return f(out, orMsg(m)) == nil, "" }
 }
 
 // readBy drains r with reads of n bytes.
@@ -132,7 +142,7 @@ func readBy(r io.Reader, n int) ([]byte, error) {
 }
 
 func streamAccept(s tink.StreamingAEAD) acceptFn {
-	return func(out []byte) (bool, string) {
+	return func(out, _ []byte) (bool, string) {
 		var verdicts [3]bool
 		for mode, size := range []int{1, len(out) + 64, 7} {
 			r, err := s.NewDecryptingReader(bytes.NewReader(out), aad)
@@ -230,97 +240,97 @@ func setupClasses() {
 		{name: "aead", rule: ref.SelPrefixRule, monitored: true, mk: mkAEAD,
 			shapes:   cat(shapesOf("aesgcm", noLegacy), shapesOf("xchacha20poly1305", noLegacy), shapesOf("kmsenvelope", allVariants)),
 			rotQuick: []string{"aesgcm/TINK", "aesgcm/RAW", "kmsenvelope/LEGACY", "xchacha20poly1305/CRUNCHY"},
-			producer: func(h *keyset.Handle) (func() ([]byte, error), error) {
+			producer: func(h *keyset.Handle) (produceFn, error) {
 				a, err := aead.New(h)
 				if err != nil {
 					return nil, err
 				}
-				return func() ([]byte, error) { return a.Encrypt(msg, aad) }, nil
+				return func(m []byte) ([]byte, error) { return a.Encrypt(orMsg(m), aad) }, nil
 			},
 			acceptor: func(h *keyset.Handle) (acceptFn, error) {
 				a, err := aead.New(h)
 				if err != nil {
 					return nil, err
 				}
-				return bytesAccept(func(out []byte) ([]byte, error) { return a.Decrypt(out, aad) }, msg), nil
+				return bytesAccept(func(out []byte) ([]byte, error) { return a.Decrypt(out, aad) }), nil
 			}},
 		{name: "daead", rule: ref.SelPrefixRule, monitored: true, mk: mkDAEAD,
 			shapes:   cat(shapesOf("aessiv", noLegacy), shapesOf("legacy-daead", allVariants)),
 			rotQuick: []string{"aessiv/TINK", "aessiv/RAW", "legacy-daead/CRUNCHY"},
-			producer: func(h *keyset.Handle) (func() ([]byte, error), error) {
+			producer: func(h *keyset.Handle) (produceFn, error) {
 				a, err := daead.New(h)
 				if err != nil {
 					return nil, err
 				}
-				return func() ([]byte, error) { return a.EncryptDeterministically(msg, aad) }, nil
+				return func(m []byte) ([]byte, error) { return a.EncryptDeterministically(orMsg(m), aad) }, nil
 			},
 			acceptor: func(h *keyset.Handle) (acceptFn, error) {
 				a, err := daead.New(h)
 				if err != nil {
 					return nil, err
 				}
-				return bytesAccept(func(out []byte) ([]byte, error) { return a.DecryptDeterministically(out, aad) }, msg), nil
+				return bytesAccept(func(out []byte) ([]byte, error) { return a.DecryptDeterministically(out, aad) }), nil
 			}},
 		{name: "mac", rule: ref.SelPrefixLegacyRule, monitored: true, mk: mkMAC,
 			shapes:   cat(shapesOf("hmac", allVariants), shapesOf("aescmac", allVariants), shapesOf("legacy-mac", allVariants)),
 			rotQuick: []string{"hmac/TINK", "hmac/LEGACY", "aescmac/RAW", "legacy-mac/LEGACY"},
-			producer: func(h *keyset.Handle) (func() ([]byte, error), error) {
+			producer: func(h *keyset.Handle) (produceFn, error) {
 				m, err := mac.New(h)
 				if err != nil {
 					return nil, err
 				}
-				return func() ([]byte, error) { return m.ComputeMAC(msg) }, nil
+				return func(d []byte) ([]byte, error) { return m.ComputeMAC(orMsg(d)) }, nil
 			},
 			acceptor: func(h *keyset.Handle) (acceptFn, error) {
 				m, err := mac.New(h)
 				if err != nil {
 					return nil, err
 				}
-				return errAccept(func(out []byte) error { return m.VerifyMAC(out, msg) }), nil
+				return errAccept(func(out, d []byte) error { return m.VerifyMAC(out, d) }), nil
 			}},
 		{name: "signature", rule: ref.SelPrefixLegacyRule, monitored: true, mk: mkSig, asym: true, accPub: true, slow: true,
 			shapes:   cat(shapesOf("ed25519", allVariants), shapesOf("ecdsa-p256", allVariants), shapesOf("legacy-sig", allVariants)),
 			rotQuick: []string{"ed25519/TINK", "ed25519/RAW", "ecdsa-p256/LEGACY", "legacy-sig/CRUNCHY"},
-			producer: func(h *keyset.Handle) (func() ([]byte, error), error) {
+			producer: func(h *keyset.Handle) (produceFn, error) {
 				s, err := signature.NewSigner(h)
 				if err != nil {
 					return nil, err
 				}
-				return func() ([]byte, error) { return s.Sign(msg) }, nil
+				return func(m []byte) ([]byte, error) { return s.Sign(orMsg(m)) }, nil
 			},
 			acceptor: func(h *keyset.Handle) (acceptFn, error) {
 				v, err := signature.NewVerifier(h)
 				if err != nil {
 					return nil, err
 				}
-				return errAccept(func(out []byte) error { return v.Verify(out, msg) }), nil
+				return errAccept(func(out, d []byte) error { return v.Verify(out, d) }), nil
 			}},
 		{name: "hybrid", rule: ref.SelPrefixRule, monitored: true, mk: mkHybrid, asym: true, prodPub: true, slow: true,
 			shapes:   cat(shapesOf("hpke-x25519", noLegacy), shapesOf("ecies-p256", noLegacy), shapesOf("legacy-hybrid", allVariants)),
 			rotQuick: []string{"hpke-x25519/TINK", "hpke-x25519/RAW", "ecies-p256/CRUNCHY", "legacy-hybrid/LEGACY"},
-			producer: func(h *keyset.Handle) (func() ([]byte, error), error) {
+			producer: func(h *keyset.Handle) (produceFn, error) {
 				e, err := hybrid.NewHybridEncrypt(h)
 				if err != nil {
 					return nil, err
 				}
-				return func() ([]byte, error) { return e.Encrypt(msg, aad) }, nil
+				return func(m []byte) ([]byte, error) { return e.Encrypt(orMsg(m), aad) }, nil
 			},
 			acceptor: func(h *keyset.Handle) (acceptFn, error) {
 				d, err := hybrid.NewHybridDecrypt(h)
 				if err != nil {
 					return nil, err
 				}
-				return bytesAccept(func(out []byte) ([]byte, error) { return d.Decrypt(out, aad) }, msg), nil
+				return bytesAccept(func(out []byte) ([]byte, error) { return d.Decrypt(out, aad) }), nil
 			}},
 		{name: "streamingaead", rule: ref.SelNoFramingRule, mk: mkStream,
 			shapes:   cat(shapesOf("aesgcmhkdf", []ref.Variant{ref.Raw}), shapesOf("aesctrhmac", []ref.Variant{ref.Raw})),
 			rotQuick: []string{"aesgcmhkdf/RAW", "aesctrhmac/RAW"},
-			producer: func(h *keyset.Handle) (func() ([]byte, error), error) {
+			producer: func(h *keyset.Handle) (produceFn, error) {
 				s, err := streamingaead.New(h)
 				if err != nil {
 					return nil, err
 				}
-				return func() ([]byte, error) {
+				return func([]byte) ([]byte, error) {
 					var buf bytes.Buffer
 					w, err := s.NewEncryptingWriter(&buf, aad)
 					if err != nil {
@@ -348,36 +358,36 @@ func setupClasses() {
 		{name: "jwtmac", rule: ref.SelKidRule, monitored: true, mk: mkJWTMAC,
 			shapes:   cat(jwtShapes("HS256"), jwtShapes("HS384")),
 			rotQuick: []string{"HS256/TINK-kid", "HS256/custom-kid=kidA", "HS256/ignored-kid", "HS384/TINK-kid"},
-			producer: func(h *keyset.Handle) (func() ([]byte, error), error) {
+			producer: func(h *keyset.Handle) (produceFn, error) {
 				m, err := jwt.NewMAC(h)
 				if err != nil {
 					return nil, err
 				}
-				return func() ([]byte, error) { t, err := m.ComputeMACAndEncode(jwtRaw); return []byte(t), err }, nil
+				return func([]byte) ([]byte, error) { t, err := m.ComputeMACAndEncode(jwtRaw); return []byte(t), err }, nil
 			},
 			acceptor: func(h *keyset.Handle) (acceptFn, error) {
 				m, err := jwt.NewMAC(h)
 				if err != nil {
 					return nil, err
 				}
-				return errAccept(func(out []byte) error { _, err := m.VerifyMACAndDecode(string(out), jwtValidator); return err }), nil
+				return errAccept(func(out, _ []byte) error { _, err := m.VerifyMACAndDecode(string(out), jwtValidator); return err }), nil
 			}},
 		{name: "jwtsig", rule: ref.SelKidRule, monitored: true, mk: mkJWTSig, asym: true, accPub: true, slow: true,
 			shapes:   cat(jwtShapes("ES256"), jwtShapes("ES384")),
 			rotQuick: []string{"ES256/TINK-kid", "ES256/custom-kid=kidA", "ES256/ignored-kid"},
-			producer: func(h *keyset.Handle) (func() ([]byte, error), error) {
+			producer: func(h *keyset.Handle) (produceFn, error) {
 				s, err := jwt.NewSigner(h)
 				if err != nil {
 					return nil, err
 				}
-				return func() ([]byte, error) { t, err := s.SignAndEncode(jwtRaw); return []byte(t), err }, nil
+				return func([]byte) ([]byte, error) { t, err := s.SignAndEncode(jwtRaw); return []byte(t), err }, nil
 			},
 			acceptor: func(h *keyset.Handle) (acceptFn, error) {
 				v, err := jwt.NewVerifier(h)
 				if err != nil {
 					return nil, err
 				}
-				return errAccept(func(out []byte) error { _, err := v.VerifyAndDecode(string(out), jwtValidator); return err }), nil
+				return errAccept(func(out, _ []byte) error { _, err := v.VerifyAndDecode(string(out), jwtValidator); return err }), nil
 			}},
 	}
 }
